@@ -74,7 +74,7 @@ example : Shaped (chain2Sem.dimsOf 3) (⟨[1], [5]⟩ : Tensor Int) := ⟨rfl, r
     shape check (`ShapeOK`; see C01), for the gradient of any leaf `ℓ`: the change produced by a pass from
     `root` with the seed `s₁ + s₂` is the sum of the changes produced with `s₁` and with `s₂` — with no
     assumption about the operations: every built-in closure was proved additive (`vjp_lin`). -/
-theorem C17_additive_stored_closures [AddLaws S] [MulLaws S] {σ : State S} (g : Good σ) (hs : ShapeOK σ)
+theorem C17_additive_stored_closures [AddLaws S] [MulLaws S] [CommLaws S] {σ : State S} (g : Good σ) (hs : ShapeOK σ)
     (ℓ j root : Nat) (hleaf : σ.graph.kids ℓ = []) (hroot : root < σ.nodes.size) (dims : List Nat) (keep : Bool)
     (hg : ∀ t, σ.estate.grad ℓ = some t → Shaped (σ.dimsOf ℓ) t)
     (s₁ s₂ : Tensor S) (h₁ : Shaped (σ.dimsOf root) s₁) (h₂ : Shaped (σ.dimsOf root) s₂) (e₁ e₂ e₃ : EState S)
@@ -89,6 +89,22 @@ theorem C17_additive_stored_closures [AddLaws S] [MulLaws S] {σ : State S} (g :
     (fun n s _ _ _ => by simp [stores, hleaf]) (by omega) dims σ.estate e₁ e₂ e₃ (estate_clean σ g.heap) rfl hg
     s₁ s₂ h₁ h₂ ok₁ ok₂ ok₃
 
+/-- **Homogeneity in the seed, of the stored closures themselves**: over a commutative ring every built-in
+    closure commutes with scaling the delta (`vjp_lin`, second half), so in every good state passing the
+    shape check the change produced with the seed `α·s` is `α` times the change produced with `s` — the
+    hypothesis `hΛ` of `C17_homogeneous` is discharged.  With `C17_additive_stored_closures`: the gradient
+    is **linear in the seed**. -/
+theorem C17_homogeneous_stored_closures [AddLaws S] [MulLaws S] [CommLaws S] {σ : State S} (g : Good σ) (hs : ShapeOK σ)
+    (ℓ j root : Nat) (hleaf : σ.graph.kids ℓ = []) (hroot : root < σ.nodes.size) (dims : List Nat) (keep : Bool)
+    (hg : ∀ t, σ.estate.grad ℓ = some t → Shaped (σ.dimsOf ℓ) t)
+    (α : S) (s : Tensor S) (h : Shaped (σ.dimsOf root) s) (e : EState S)
+    (ok : backward σ.graph (σ.nodes.size + 1) root dims keep (some (tsmul α s)) σ.estate = .ok e) :
+    gradVal ℓ j e = gradVal ℓ j σ.estate + α * P (σ.sem (fun _ => keep) g.heap hs) ℓ j root s :=
+  C17_homogeneous (σ.sem (fun _ => keep) g.heap hs) (graph_wf σ g.heap) (graph_lawful σ g.heap) ℓ j (σ.nodes.size + 1) root
+    (fun n s _ _ _ => by simp [stores, hleaf]) (by omega) dims σ.estate e (estate_clean σ g.heap) rfl hg
+    α (CommLaws.mul_zero α) (MulLaws.left_distrib α)
+    (fun n i sl x hk hx => σ.sem_smul (fun _ => keep) g.heap hs α n i sl x hk hx) s h ok
+
 end Corgi
 
 #print axioms Corgi.C17_default
@@ -96,3 +112,4 @@ end Corgi
 #print axioms Corgi.C17_additive
 #print axioms Corgi.C17_homogeneous
 #print axioms Corgi.C17_additive_stored_closures
+#print axioms Corgi.C17_homogeneous_stored_closures
